@@ -31,15 +31,26 @@ def endpoint(kind, clock, key=KEY, status=None):
     return c
 
 
-def arbitrary_state(c, now):
+def arbitrary_state(c, now, npending=1):
     """semantic state an attacker datagram could disturb"""
     proto.sym_window(c)
     c.last_recv_time = symreal('last_recv', lo=0, hi=now)
     c.seq_sending = SeqNum(symint('seq_sending', 0, 65535))
-    s = SeqNum(symint('pending_seq', 1, 65535))
     rec = Rec('pending')
-    c.pending_acks[s] = symreal('pending_sent', lo=0, hi=now)
-    c.pending_callbacks[s] = [rec]
+    seen = []
+    for i in range(npending):
+        sv = symint('pending_seq%d' % i if i else 'pending_seq', 1, 65535)
+        for o in seen:
+            assume(sv != o)
+        seen.append(sv)
+        s = SeqNum(sv)
+        c.pending_acks[s] = symreal('pending_sent%d' % i if i else 'pending_sent', lo=0, hi=now)
+        c.pending_callbacks[s] = [rec]
+    # a partially reassembled fragmented message and a queued outgoing message are part of the state too
+    fr = conn.FragmentReceiver(c, 2, now)
+    fr.fragments[0] = b'first half'
+    c.received_fragments[SeqNum(symint('frag_ctx_id', 1, 65535))] = fr
+    c.outgoing_messages.append(conn.PendingMessage(SeqNum(symint('queued_seq', 1, 65535)), PacketType.APP, b'queued', None, RetryMode.NONE))
     c.token = symint('token', 0, 2 ** 31 - 1)
     return rec
 
@@ -81,7 +92,7 @@ def l11(kind, tname, maxcount=2):
     now = symreal('now', lo=10, hi=4000000000)
     clock = proto.clock_at(now)
     c = endpoint(kind, clock)
-    rec = arbitrary_state(c, now)
+    rec = arbitrary_state(c, now, npending=(1 if maxcount <= 2 else 2))
     handler_events = len(c.ctxt.handler.events) if kind == 'server' else 0
     before = proto.snapshot(c)
     dropped0 = c.stats.dropped
